@@ -124,6 +124,7 @@ from ..number import (
     MPBFloatContext,
     MPFixedContext,
     MPSFloatContext,
+    OverflowMode,
     RealFloat,
     RoundingMode,
 )
@@ -298,6 +299,11 @@ class _Prober:
         far apart stand in for the check; a format whose answer varies between
         them is declined rather than silently mis-lowered.
         """
+        if getattr(self.ctx, 'overflow', None) is OverflowMode.WRAP:
+            # wrapping gives a different answer at every magnitude; two probes
+            # can land on the same one (3-bit sign-magnitude: 2 * max and
+            # 2**64 * max both wrap to the same residue)
+            return None
         try:
             near = [self.ctx.round(shift(b, 1)) for b in (maxval, neg_maxval)]
             far = [self.ctx.round(shift(b, 64)) for b in (maxval, neg_maxval)]
